@@ -7,6 +7,9 @@
       - bytes / string / T[]: boundary cases (equal, one element differs, prefix, lengths differ, empty);
       - bytes[] / string[] must raise explicitly;
     every (selector, signature) pair in utils.dict_of_unsupported_cheatcodes must satisfy the keccak relation.
+ 3. end to end: a test contract whose check(x,y) reaches vm.assert*(f(x), g(y)) through 0..3 self-calls that swallow the callee's failure,
+    optionally behind vm.assume: run_contract's verdict must be FAIL whenever a boundary input makes the relation false, and every
+    reported counterexample must make it false (and pass the assumption) on the reference.
  2. dynamic: generated programs calling vm.assume / vm.assert* from nesting depth 0..3 are run through SEVM.run;
     for concrete operand valuations the reference Foundry model decides {assumption rejected, assertion failed, ok}:
     a rejected input must be admitted by no path, a failing input by a FailCheatcode path (and only by such),
@@ -225,12 +228,96 @@ def dynamic_case(seed, idx, res):
         v.setdefault("index", idx)
 
 
+# ---------------------------------------------------------------------------------- end to end through run_contract
+E_B = [0, 1, 5, 6, 2**255 - 1, 2**255, 2**255 + 1, 2**256 - 1]
+
+
+def e2e_case(seed, idx, res):
+    """test contract: check(x,y) [assume(...)] -> self.h1(x,y) -> ... -> vm.assert*(f(x), g(y)) at call depth 0..3, the intermediate frames
+    swallowing the callee's failure.  Verdict vs the reference over a grid of boundary values; reported models are replayed."""
+    import e2e
+
+    rng = random.Random(f"c13-e2e-{seed}-{idx}")
+    U = ("uint", 256)
+    depth = rng.randrange(0, 4)
+    selr, spec = rng.choice([(s_, sp) for s_, sp in WORD_ASSERTS if sp["type"] in ("uint256", "int256")])
+    nargs = 1 if spec["family"] in ("True", "False") else 2
+    K = rng.choice(E_B)
+    opsx = rng.choice([A.arg(0), A.arg(0) + [1, "ADD"], A.arg(0) + [K, "XOR"]])
+    opsy = rng.choice([A.arg(1), [("push", K, 32)], A.arg(1) + A.arg(0) + ["ADD"]])
+    leaf = A.vm(spec["sig"], *([opsx, opsy][:nargs])) + ["STOP"]
+    fns = []
+    names = [f"h{d}" for d in range(depth)]
+
+    def call_self(name):
+        # CALL address(this).<name>(x, y); result ignored (failure swallowed)
+        sig = abi.signature(name, [U, U])
+        return [("push", int.from_bytes(abi.selector(sig), "big") << 224, 32), 0x300, "MSTORE"] + A.arg(0) + [0x304, "MSTORE"] + A.arg(1) + [0x324, "MSTORE",
+                0, 0, 0x44, 0x300, 0, "ADDRESS", 0xFFFF, "CALL", "POP"]
+
+    pre = []
+    assume_desc = None
+    if rng.random() < 0.5:
+        cmpop = rng.choice(["LT", "GT", "EQ"])
+        c = rng.choice(E_B)
+        pre = A.vm("assume(bool)", [("push", c, 32)] + A.arg(0) + [cmpop])
+        assume_desc = (cmpop, c)
+    body0 = pre + (call_self(names[0]) + ["STOP"] if depth else leaf)
+    test = A.Fn("check_rel", [("x", U), ("y", U)], body0)
+    fns.append(test)
+    for d in range(depth):
+        fns.append(A.Fn(names[d], [("x", U), ("y", U)], (call_self(names[d + 1]) + ["STOP"]) if d + 1 < depth else leaf))
+    setup = A.Fn("setUp", [], ["STOP"])
+    spec_c = A.ContractSpec("T", [setup] + fns)
+    res["features"][f"e2e:depth:{depth}"] += 1
+    res["features"]["e2e:" + spec["family"] + ":" + spec["type"]] += 1
+    out = A.run(A.make_ctx(spec_c, funsigs=[test.sig]))
+    res["counters"]["evaluations"] += 1
+    if out.exception or len(out.results) != 1:
+        res["counters"]["e2e_run_failed"] += 1
+        return
+    r = out.results[0]
+    wit = dict(index=idx, part="E", depth=depth, assertion=spec["sig"], assume=assume_desc, exitcode=r.exitcode)
+    failing = None
+    nrej = 0
+    for x in E_B + [K, (K - 1) % 2**256, (K + 1) % 2**256]:
+        for y in E_B[:6] + [K]:
+            rp = A.replay(spec_c, test, [x, y], setup_fn=setup)
+            if rp.status == "assume-rejected":
+                nrej += 1
+            elif rp.status == "test-failed" or rp.fails():
+                failing = failing or (x, y)
+    res["counters"]["e2e_tests"] += 1
+    res["counters"][f"e2e_depth_{depth}"] += 1
+    if failing and r.exitcode == 0 and not out.warnings():
+        res["violations"].append(dict(what="PASS although a boundary input makes the vm.assert* relation false (end to end)", key=f"e2e-missed-failure:{spec['family']}:{spec['type']}",
+                                      input=[hex(v) for v in failing], **wit))
+    if failing:
+        res["counters"]["e2e_failing_inputs_exist"] += 1
+    for m in r.models or []:
+        if not m.is_valid:
+            continue
+        vals = A.model_values(test, m)
+        rp = A.replay(spec_c, test, vals, setup_fn=setup)
+        res["counters"]["e2e_models_replayed"] += 1
+        if rp.status != "test-failed" and not rp.fails():
+            res["violations"].append(dict(what="a counterexample reported for a vm.assert* test does not make the relation false on the reference (or is excluded by vm.assume)", key=f"e2e-bad-model:{spec['family']}:{spec['type']}",
+                                          model=[hex(v) for v in vals], replay=rp.status, **wit))
+        else:
+            res["distinct"].append(f"e2e:{idx}")
+    for v in res["violations"]:
+        v["prop"] = "C13"
+
+
 def worker(task):
     _imports()
     kind, lo, hi, seed = task
     res = new_result()
     if kind == "audit":
         audit_table(res)
+    elif kind == "e2e":
+        for idx in range(lo, hi):
+            e2e_case(seed, idx, res)
     else:
         for idx in range(lo, hi):
             dynamic_case(seed, idx, res)
@@ -247,7 +334,9 @@ def main():
     if run.replay:
         w = json.load(open(run.replay))["witness"]
         res = new_result()
-        if "index" in w:
+        if w.get("part") == "E":
+            e2e_case(run.seed, int(w["index"]), res)
+        elif "index" in w:
             dynamic_case(run.seed, int(w["index"]), res)
         else:
             audit_table(res)
@@ -256,6 +345,8 @@ def main():
     tasks = [("audit", 0, 0, run.seed)]
     n = run.n(420, 10000)
     tasks += [("dyn", lo, min(n, lo + 10), run.seed) for lo in range(0, n, 10)]
+    ne = run.n(96, 2000)
+    tasks += [("e2e", lo, min(ne, lo + 4), run.seed) for lo in range(0, ne, 4)]
     run_pool(run, worker, tasks, soft_timeout=900)
     run.extra["table_size"] = len(handlers)
     if run.counters.get("selectors_audited", 0) != len(handlers):
@@ -266,6 +357,8 @@ def main():
     run.require("inputs_rejected_by_assume", 20)
     for d in range(4):
         run.require(f"dynamic_depth_{d}", 20)
+        run.require(f"e2e_depth_{d}", 8)
+    run.require("e2e_models_replayed", 30)
     run.finish()
 
 
